@@ -687,6 +687,9 @@ func (t *tScreen) Fini() {
 func (t *tScreen) finish() {
 	close(t.quit)
 	t.finalize()
+	t.Lock()
+	t.fini = true
+	t.Unlock()
 }
 
 func (t *tScreen) SetStyle(style Style) {
